@@ -542,3 +542,29 @@ Proof.
   apply Hu; [exact H1 | symmetry; exact H3].
 Qed.
 Print Assumptions C16_exact_filter_isolated.
+
+(* T21 the emitter decides per declaration ([gen_emit]); [gen_current], which every theorem above
+       about the current tree uses, is exactly that WHEN FUNCTION NAMES ARE UNIQUE IN THE FILE —
+       the hypothesis is explicit here.  Refuted without it: with `test_a(v)` and `test_a()` in one
+       file the harness generated for the parameterised declaration executes the other one *)
+Theorem C16_emitter_unique_names : forall file_tests t,
+  NoDup (file_tests t) -> In t (file_tests t) ->
+  (forall u, In u (file_tests t) -> t_name u = t_name t -> u = t) ->
+  harness_executes (gen_emit file_tests t) = harness_executes (gen_current t).
+Proof. exact gen_emit_unique. Qed.
+Print Assumptions C16_emitter_unique_names.
+
+Definition ex_dup_param : test :=
+  {| t_path := [[116]]; t_name := s_test_ ++ [97]; t_markers := [MParametrize]; t_fixtures := []; t_params := [[118]]; t_async := false |}.
+
+Theorem C16_emitter_duplicate_names_refuted :
+  let file := fun _ : test => [ex_dup_param; ex_pass] in
+  t_name ex_dup_param = t_name ex_pass /\ ex_dup_param <> ex_pass /\
+  harness_executes (gen_current ex_dup_param) = [] /\
+  harness_executes (gen_emit file ex_dup_param) = [ex_pass] /\
+  ~ isolated (gen_emit file) ex_dup_param.
+Proof.
+  cbv zeta. repeat split; try (vm_compute; reflexivity); try discriminate.
+  intro H. assert (E : ex_pass = ex_dup_param) by (apply H; vm_compute; left; reflexivity). discriminate.
+Qed.
+Print Assumptions C16_emitter_duplicate_names_refuted.
